@@ -64,6 +64,14 @@ Proof.
   - intros H. right. auto.
 Qed.
 
+Lemma find_any_index_in ps i p : find_any_index ps i = Some p -> In p ps.
+Proof.
+  unfold find_any_index. destruct (find_hs_index ps i) eqn:E1.
+  - intros H; inversion H; subst. eapply find_hs_index_in; eauto.
+  - destruct (find_kp_index ps i) as [[q k]|] eqn:E2; [|discriminate].
+    intros H; inversion H; subst. eapply find_kp_index_in; eauto.
+Qed.
+
 Lemma find_peer_get_peer ps pk pid h :
   find_peer (map (fun p => (p_id p, p_hs p)) ps) pk = Some (pid, h) ->
   exists p, get_peer ps pid = Some p /\ p_hs p = h.
@@ -152,7 +160,7 @@ Lemma responder_keypair_ok d m pid h1 er idx h2 r h3 s3 k p :
   get_peer (d_peers d) pid = Some p ->
   create_resp h1 er idx = Some (h2, r) ->
   begin_session h2 (p_kp p) = Some (h3, s3, k) ->
-  peer_ok (d_static d) {| p_id := pid; p_hs := h3; p_kp := s3; p_staged := p_staged p |}.
+  peer_ok (d_static d) (upd p h3 s3 (p_staged p)).
 Proof.
   intros Hd Hc Hg Hr Hb. set (dv := d_static d) in *.
   pose proof (dev_ok_peers_ok d Hd) as Hpo. fold dv in Hpo.
@@ -174,7 +182,7 @@ Proof.
   inversion Hb; subst h3 s3 k'; clear Hb.
   destruct (begin_session_is_paper h2 s2 Hc2) as (_ & HR & _).
   destruct (HR Hst2) as (k' & Edk' & Hkeys & Hinit & _). rewrite Edk in Edk'. inversion Edk'; subst k'; clear Edk'.
-  unfold peer_ok. cbn [p_id p_hs p_kp zero_handshake rstatic ss psk].
+  unfold peer_ok. cbn [upd p_id p_hs p_kp zero_handshake rstatic ss psk]. rewrite ?Hid.
   split; [congruence|]. split; [congruence|]. split; [left; reflexivity|].
   rewrite Hpsk2, Hpsk1. apply rotate_ok; [|exact Hsl].
   right. split; [exact Hinit|]. exists s2. split; [|exact Hkeys].
@@ -187,7 +195,7 @@ Lemma initiator_keypair_ok d p m h1 h2 s2 k :
   dev_ok d -> In p (d_peers d) ->
   consume_resp (d_static d) (p_hs p) m = Some h1 ->
   begin_session h1 (p_kp p) = Some (h2, s2, k) ->
-  peer_ok (d_static d) {| p_id := p_id p; p_hs := h2; p_kp := s2; p_staged := 0 |}.
+  peer_ok (d_static d) (upd p h2 s2 0).
 Proof.
   intros Hd Hin Hc Hb. set (dv := d_static d) in *.
   destruct (dev_ok_in d p Hd Hin) as (Hrs & Hss & Hhs & Hsl). fold dv in Hss, Hsl, Hhs.
@@ -200,7 +208,7 @@ Proof.
   inversion Hb; subst h2 s2 k'; clear Hb.
   destruct (begin_session_is_paper h1 s' Hc1) as (HI & _ & _).
   destruct (HI Hst1) as (k' & Edk' & Hkeys & Hinit & _). rewrite Edk in Edk'. inversion Edk'; subst k'; clear Edk'.
-  unfold peer_ok. cbn [p_id p_hs p_kp zero_handshake rstatic ss psk].
+  unfold peer_ok. cbn [upd p_id p_hs p_kp zero_handshake rstatic ss psk].
   split; [congruence|]. split; [congruence|]. split; [left; reflexivity|].
   rewrite Hpsk1. apply rotate_ok; [|exact Hsl].
   left. split; [exact Hinit|]. exists s'. split; [|exact Hkeys].
@@ -219,7 +227,7 @@ Proof.
   destruct (create_initiation_is_paper (d_static d) (p_hs p) e ts idx Hss0)
     as (h'' & m' & s & Ec' & Hpi & Hh & Hck & Hst & _).
   rewrite Ec in Ec'. inversion Ec'; subst h'' m'; clear Ec'.
-  unfold peer_ok. cbn [p_id p_hs p_kp].
+  unfold peer_ok. cbn [sent_mac1 upd p_id p_hs p_kp].
   split; [congruence|]. split; [congruence|].
   split.
   - right. split; [exact Hst|]. rewrite Hle, Hrs'. do 4 eexists. split; [exact Hpi|split; assumption].
@@ -229,7 +237,7 @@ Qed.
 (* ---- the invariant ------------------------------------------------------------ *)
 Theorem dev_step_ok : forall d e, dev_ok d -> dev_ok (fst (dev_step d e)).
 Proof.
-  intros d e Hd. destruct e as [m er idx|m|receiver counter c|to e ts idx|to e ts idx]; cbn [dev_step].
+  intros d e Hd. destruct e as [m er idx|m|receiver counter c|to e ts idx|to e ts idx| |receiver nonce c]; cbn [dev_step].
   - (* EInit *)
     destruct (negb (check_mac1 (d_static d) (init_body m) (i_mac1 m))); [exact Hd|].
     destruct (consume_init (d_static d) (hs_list d) false m) as [[pid h1]|] eqn:Ec; [|exact Hd].
@@ -258,7 +266,7 @@ Proof.
     destruct (received_with (kp_lidx k) (p_kp p)) as [s' promoted] eqn:Er.
     cbn [fst]. apply upd_peer_ok; [exact Hd|].
     destruct (dev_ok_in d p Hd (find_kp_index_in _ _ _ _ Ef)) as (A & B & C0 & D).
-    unfold peer_ok. cbn [p_id p_hs p_kp]. split; [exact A|]. split; [exact B|]. split; [exact C0|].
+    unfold peer_ok. cbn [upd p_id p_hs p_kp]. split; [exact A|]. split; [exact B|]. split; [exact C0|].
     replace s' with (fst (received_with (kp_lidx k) (p_kp p))) by now rewrite Er.
     apply received_with_ok; exact D.
   - (* ETun *)
@@ -274,6 +282,19 @@ Proof.
     destruct (get_peer (d_peers d) to) as [p|] eqn:Eg; [|exact Hd].
     destruct (get_peer_in _ _ _ Eg) as [Hin _].
     apply send_initiation_ok; [exact Hd|]. exact (dev_ok_in d p Hd Hin).
+  - (* ERestart *)
+    cbn [fst]. unfold dev_ok in *. cbn [d_static d_peers]. rewrite Forall_forall in *.
+    intros q Hq. apply in_map_iff in Hq. destruct Hq as (p & <- & Hin).
+    destruct (Hd p Hin) as (A & B & _ & _).
+    unfold peer_ok, restart_peer. cbn [upd p_id p_hs p_kp clear_handshake rstatic ss psk].
+    split; [exact A|]. split; [exact B|]. split; [left; reflexivity|].
+    unfold slots_ok, no_slots. cbn. auto.
+  - (* ECookie *)
+    destruct (find_any_index (d_peers d) receiver) as [p|] eqn:Ef; [|exact Hd].
+    destruct (p_lastmac1 p); [|exact Hd].
+    destruct (aead_open (cookie_key (TPub (p_id p))) nonce c t); [|exact Hd].
+    cbn [fst]. apply upd_peer_ok; [exact Hd|].
+    exact (dev_ok_in d p Hd (find_any_index_in _ _ _ Ef)).
 Qed.
 
 Theorem no_session_with_stranger : forall (d : dev) (evs : list ev),
@@ -283,9 +304,186 @@ Proof. intros d evs H. revert d H. apply (final_inv dev_step dev_ok). intros s o
 (* a freshly configured device satisfies the invariant *)
 Lemma fresh_dev_ok dv (conf : list (kid * term)) :
   dev_ok {| d_static := dv;
-            d_peers := map (fun kp => {| p_id := fst kp; p_hs := new_handshake (Some dv) (fst kp) (snd kp);
-                                         p_kp := no_slots; p_staged := 0 |}) conf |}.
+            d_peers := map (fun kp => new_peer (fst kp) (new_handshake (Some dv) (fst kp) (snd kp))) conf |}.
 Proof.
   unfold dev_ok. cbn [d_static d_peers]. induction conf as [|[k q] r IH]; cbn [map]; constructor; [|exact IH].
   unfold peer_ok. cbn. repeat split; auto. left. reflexivity.
+Qed.
+
+(* =========================================================================
+   Restarts keep the configuration.  Whatever happens to a device -- handshakes
+   in both roles, data, cookie replies, Down/Up cycles that stop and start
+   every peer (Handshake.Clear) -- the preshared key, the remote static key and
+   the precomputed static-static secret stored for a peer are the ones it was
+   configured with.  Hence the keypair invariant above, which speaks about
+   [psk (p_hs p)], speaks about the CONFIGURED preshared key, also after
+   restarts: psk_mismatch_no_session continues to hold. *)
+Definition static_of (h : hs) : term * kid * term := (psk h, rstatic h, ss h).
+Definition view (d : dev) (k : kid) : option (term * kid * term) :=
+  option_map (fun p => static_of (p_hs p)) (get_peer (d_peers d) k).
+Definition ids (d : dev) : list kid := map p_id (d_peers d).
+
+(* every peer record that q would replace carries q's configuration *)
+Definition agrees (d : dev) (q : peer) : Prop :=
+  forall p0, In p0 (d_peers d) -> p_id p0 = p_id q -> static_of (p_hs p0) = static_of (p_hs q).
+
+Lemma nodup_id_inj ps p q : NoDup (map p_id ps) -> In p ps -> In q ps -> p_id p = p_id q -> p = q.
+Proof.
+  induction ps as [|a r IH]; cbn [map]; intros Hn Hp Hq Heq; [contradiction|].
+  inversion Hn as [|x l Hnot Hn']; subst.
+  destruct Hp as [->|Hp], Hq as [->|Hq]; auto.
+  - exfalso. apply Hnot. rewrite Heq. now apply in_map.
+  - exfalso. apply Hnot. rewrite <- Heq. now apply in_map.
+Qed.
+
+Lemma agrees_of_in d p q :
+  NoDup (ids d) -> In p (d_peers d) -> p_id q = p_id p -> static_of (p_hs q) = static_of (p_hs p) -> agrees d q.
+Proof.
+  intros Hn Hin Hid Hst p0 Hin0 Hid0.
+  assert (p0 = p) by (apply (nodup_id_inj (d_peers d)); auto; congruence). subst. now symmetry.
+Qed.
+
+Lemma upd_peer_ids d q : ids (upd_peer d q) = ids d.
+Proof.
+  unfold ids, upd_peer. cbn [d_peers]. induction (d_peers d) as [|a r IH]; cbn [map]; [reflexivity|].
+  rewrite IH. destruct (Nat.eqb (p_id a) (p_id q)) eqn:E; [|reflexivity].
+  apply Nat.eqb_eq in E. now rewrite E.
+Qed.
+
+Lemma upd_peer_view d q k : agrees d q -> view (upd_peer d q) k = view d k.
+Proof.
+  unfold view, upd_peer, agrees. cbn [d_peers]. induction (d_peers d) as [|a r IH]; intros Ha; cbn [map get_peer]; [reflexivity|].
+  destruct (Nat.eqb (p_id a) (p_id q)) eqn:E.
+  - apply Nat.eqb_eq in E. replace (Nat.eqb (p_id q) k) with (Nat.eqb (p_id a) k) by now rewrite E.
+    destruct (Nat.eqb (p_id a) k); cbn [option_map].
+    + f_equal. symmetry. apply Ha; [now left|exact E].
+    + apply IH. intros p0 H0. apply Ha. now right.
+  - destruct (Nat.eqb (p_id a) k); [reflexivity|]. apply IH. intros p0 H0. apply Ha. now right.
+Qed.
+
+Lemma agrees_upd d q1 q2 :
+  agrees d q1 -> p_id q2 = p_id q1 -> static_of (p_hs q2) = static_of (p_hs q1) -> agrees (upd_peer d q1) q2.
+Proof.
+  intros Ha Hid Hst p0 Hin Hid0. unfold upd_peer in Hin. cbn [d_peers] in Hin.
+  apply in_map_iff in Hin. destruct Hin as (a & Hsel & Hina).
+  destruct (Nat.eqb (p_id a) (p_id q1)) eqn:E.
+  - subst p0. now symmetry.
+  - subst p0. apply Nat.eqb_neq in E. exfalso. apply E. congruence.
+Qed.
+
+Lemma begin_session_static h s h' s' k : begin_session h s = Some (h', s', k) -> static_of h' = static_of h.
+Proof.
+  unfold begin_session. destruct (derive_keypair h); [|discriminate]. intros H; inversion H; subst. reflexivity.
+Qed.
+
+Lemma static_eq h h' : psk h' = psk h -> rstatic h' = rstatic h -> ss h' = ss h -> static_of h' = static_of h.
+Proof. unfold static_of. intros -> -> ->. reflexivity. Qed.
+
+Lemma send_initiation_view d p e ts idx k :
+  agrees d p ->
+  view (fst (send_initiation d p e ts idx)) k = view d k /\ ids (fst (send_initiation d p e ts idx)) = ids d.
+Proof.
+  intros Ha. unfold send_initiation.
+  destruct (create_init (d_static d) (p_hs p) e ts idx) as [[h' m]|] eqn:Ec; cbn [fst]; [|split; reflexivity].
+  destruct (create_init_static _ _ _ _ _ _ _ Ec) as (A & B & C0 & _).
+  split; [|apply upd_peer_ids]. apply upd_peer_view.
+  intros p0 Hin Hid. cbn [sent_mac1 upd p_id p_hs] in *. rewrite (Ha p0 Hin Hid). symmetry. now apply static_eq.
+Qed.
+
+Theorem dev_step_view : forall d e k, NoDup (ids d) ->
+  view (fst (dev_step d e)) k = view d k /\ ids (fst (dev_step d e)) = ids d.
+Proof.
+  intros d e k Hn. destruct e as [m er idx|m|receiver counter c|to e ts idx|to e ts idx| |receiver nonce c]; cbn [dev_step].
+  - (* EInit *)
+    destruct (negb (check_mac1 (d_static d) (init_body m) (i_mac1 m))); [split; reflexivity|].
+    destruct (consume_init (d_static d) (hs_list d) false m) as [[pid h1]|] eqn:Ec; [|split; reflexivity].
+    destruct (get_peer (d_peers d) pid) as [p|] eqn:Eg; [|split; reflexivity].
+    destruct (consume_init_inv _ _ _ _ _ _ Ec) as (e' & hq & ts' & _ & Ef & _ & _ & _ & _ & _ & _ & Hpsk1 & Hrs1 & Hss1 & _).
+    destruct (find_peer_get_peer _ _ _ _ Ef) as (p' & Hg' & Hhq). rewrite Eg in Hg'. inversion Hg'; subst p'; clear Hg'.
+    destruct (get_peer_in _ _ _ Eg) as [Hin Hid]. subst hq.
+    assert (S1 : static_of h1 = static_of (p_hs p)) by now apply static_eq.
+    destruct (create_resp h1 er idx) as [[h2 r]|] eqn:Er; cbn [fst].
+    + destruct (create_resp_static _ _ _ _ _ Er) as (A & B & C0).
+      assert (S2 : static_of h2 = static_of (p_hs p)) by (rewrite <- S1; now apply static_eq).
+      destruct (begin_session h2 (p_kp p)) as [[[h3 s3] k0]|] eqn:Eb; cbn [fst];
+        (split; [|apply upd_peer_ids]); apply upd_peer_view; apply (agrees_of_in d p); auto.
+      cbn [sent_mac1 upd p_hs]. rewrite (begin_session_static _ _ _ _ _ Eb). exact S2.
+    + split; [|apply upd_peer_ids]. apply upd_peer_view. apply (agrees_of_in d p); auto.
+  - (* EResp *)
+    destruct (negb (check_mac1 (d_static d) (resp_body m) (r_mac1 m))); [split; reflexivity|].
+    destruct (find_hs_index (d_peers d) (r_receiver m)) as [p|] eqn:Ef; [|split; reflexivity].
+    destruct (consume_resp (d_static d) (p_hs p) m) as [h1|] eqn:Ec; [|split; reflexivity].
+    destruct (begin_session h1 (p_kp p)) as [[[h2 s2] k0]|] eqn:Eb; [|split; reflexivity].
+    cbn [fst]. split; [|apply upd_peer_ids]. apply upd_peer_view.
+    apply (agrees_of_in d p); auto. { eapply find_hs_index_in; eauto. }
+    cbn [upd p_hs]. rewrite (begin_session_static _ _ _ _ _ Eb).
+    destruct (consume_resp_static _ _ _ _ Ec) as (_ & A & B & C0 & _). now apply static_eq.
+  - (* EData *)
+    destruct (find_kp_index (d_peers d) receiver) as [[p k0]|] eqn:Ef; [|split; reflexivity].
+    destruct (aead_open (kp_recv k0) counter c TEmpty); [|split; reflexivity].
+    destruct (received_with (kp_lidx k0) (p_kp p)) as [s' promoted].
+    cbn [fst]. split; [|apply upd_peer_ids]. apply upd_peer_view.
+    apply (agrees_of_in d p); auto. eapply find_kp_index_in; eauto.
+  - (* ETun *)
+    destruct (get_peer (d_peers d) to) as [p|] eqn:Eg; [|split; reflexivity].
+    destruct (get_peer_in _ _ _ Eg) as [Hin _].
+    assert (Ha : agrees d (upd p (p_hs p) (p_kp p) (p_staged p + 1))) by (apply (agrees_of_in d p); auto).
+    destruct (current (p_kp p)).
+    + cbn [fst]. split; [|apply upd_peer_ids]. apply upd_peer_view. apply (agrees_of_in d p); auto.
+    + destruct (send_initiation_view (upd_peer d (upd p (p_hs p) (p_kp p) (p_staged p + 1)))
+                  (upd p (p_hs p) (p_kp p) (p_staged p + 1)) e ts idx k) as [V I].
+      { apply agrees_upd; auto. }
+      rewrite V, I. split; [now apply upd_peer_view|apply upd_peer_ids].
+  - (* EKick *)
+    destruct (get_peer (d_peers d) to) as [p|] eqn:Eg; [|split; reflexivity].
+    destruct (get_peer_in _ _ _ Eg) as [Hin _].
+    apply send_initiation_view. apply (agrees_of_in d p); auto.
+  - (* ERestart *)
+    cbn [fst]. unfold view, ids. cbn [d_peers]. split.
+    + induction (d_peers d) as [|a r IH]; cbn [map get_peer]; [reflexivity|].
+      cbn [restart_peer upd p_id]. destruct (Nat.eqb (p_id a) k); [reflexivity|].
+      apply IH.
+    + rewrite map_map. reflexivity.
+  - (* ECookie *)
+    destruct (find_any_index (d_peers d) receiver) as [p|] eqn:Ef; [|split; reflexivity].
+    destruct (p_lastmac1 p); [|split; reflexivity].
+    destruct (aead_open (cookie_key (TPub (p_id p))) nonce c t); [|split; reflexivity].
+    cbn [fst]. split; [|apply upd_peer_ids]. apply upd_peer_view.
+    apply (agrees_of_in d p); auto. eapply find_any_index_in; eauto.
+Qed.
+
+Theorem restart_keeps_psk_and_identity : forall (d : dev) (evs : list ev) (k : kid),
+  NoDup (ids d) -> view (final dev_step d evs) k = view d k.
+Proof.
+  intros d evs k Hn.
+  assert (H : view (final dev_step d evs) k = view d k /\ ids (final dev_step d evs) = ids d).
+  { apply (final_inv dev_step (fun s => view s k = view d k /\ ids s = ids d)); [|split; reflexivity].
+    intros s o [Hv Hi]. assert (Hn' : NoDup (ids s)) by now rewrite Hi.
+    destruct (dev_step_view s o k Hn') as [V I]. split; congruence. }
+  exact (proj1 H).
+Qed.
+
+(* the preshared key a peer's handshake functions use is the configured one, at every moment *)
+Corollary psk_is_configured : forall (d : dev) (evs : list ev) (p : peer),
+  NoDup (ids d) -> In p (d_peers (final dev_step d evs)) ->
+  exists p0, In p0 (d_peers d) /\ p_id p0 = p_id p /\ psk (p_hs p) = psk (p_hs p0) /\
+             rstatic (p_hs p) = rstatic (p_hs p0) /\ ss (p_hs p) = ss (p_hs p0).
+Proof.
+  intros d evs p Hn Hin.
+  assert (Hi : ids (final dev_step d evs) = ids d).
+  { apply (final_inv dev_step (fun s => ids s = ids d)); [|reflexivity].
+    intros s o Hi. assert (Hn' : NoDup (ids s)) by now rewrite Hi.
+    destruct (dev_step_view s o O Hn'). congruence. }
+  pose proof (restart_keeps_psk_and_identity d evs (p_id p) Hn) as Hv. unfold view in Hv.
+  assert (Hg : get_peer (d_peers (final dev_step d evs)) (p_id p) = Some p).
+  { assert (Hn' : NoDup (ids (final dev_step d evs))) by now rewrite Hi.
+    clear -Hin Hn'. unfold ids in Hn'. induction (d_peers (final dev_step d evs)) as [|a r IH]; [contradiction|].
+    cbn [get_peer]. destruct (Nat.eqb (p_id a) (p_id p)) eqn:E.
+    - apply Nat.eqb_eq in E. f_equal. apply (nodup_id_inj (a :: r)); auto. now left.
+    - destruct Hin as [->|Hin]; [rewrite Nat.eqb_refl in E; discriminate|].
+      apply IH; auto. cbn [map] in Hn'. now inversion Hn'. }
+  rewrite Hg in Hv. cbn [option_map] in Hv.
+  destruct (get_peer (d_peers d) (p_id p)) as [p0|] eqn:Eg; cbn [option_map] in Hv; [|discriminate].
+  destruct (get_peer_in _ _ _ Eg) as [Hin0 Hid0].
+  exists p0. unfold static_of in Hv. inversion Hv. auto.
 Qed.
